@@ -15,7 +15,7 @@ PROPS["C19"] = dict(
           "write-type one and more than 64 bytes were written (so growth/slide code ran); distinct = distinct (start kind, "
           "operation-kind sequence)."
           " Every slice returned by ReadBytes is retained and re-compared after each later step (it must be a copy)."
-          " Rarely: sizes of 64 KiB - 200 KB, a template (big write, big Read/Next, UnreadByte/UnreadRune/ReadByte), scripted readers that idle for 99-1000 reads."
+          " Rarely: sizes of 64 KiB - 200 KB, a template (big write, big Read/Next, UnreadByte/UnreadRune/ReadByte), scripted readers that idle for 99-1000 reads or end with an error that wraps io.EOF."
           " Second stage: the encoder as it is handed to user marshallers inside real records (1-3 records in a row on pooled contexts, 1-3 marshaller attributes each, 3 formats): at every marshaller entry the reference is a fresh bytes.Buffer with the encoder's contents, length, capacity and read offset (whatever the library wrote since the last call counts as a Write), then 0-8 operations in lock-step; non-trivial: a marshaller starts with Unread* after the previous one ended with a read."),
     assumptions=["bytes.Buffer of the toolchain that builds the harness is the reference",
                  "panic values are compared by class (too-large / error / other), not by wording",
@@ -108,7 +108,7 @@ PROPS["C03"] = dict(
     rule=("rapid draws 1-3 loggers (roots/children, optionally created with 1-4 writer options) and up to 30 steps of writer operations and "
           "probes, then probes every logger at Info, Error and a drawn severity. Non-trivial: the history contains a remove or reset that "
           "changed the model state, or a probe answered by per-level writers or at a custom level; distinct = (operation-name sequence, class set)."
-          " Six custom levels cover every combination of error device / treated-as / negative value / unregistered; in a fifth of the histories one pool writer fails on every Write (routing must be unaffected); the package default logger (and children of it, uniquely named per case) takes part in the histories; one pool writer is handed over as the handle slog.NewLogWriter returns for it; children are also made through WithSkip / WithLevel / WithAttrs; a third of the writer operations are sandwiched between two probes of one severity on that logger; an eighth of the probes are blank Println() / Print(\"\") calls (the line break is the record and must be announced like any other)."),
+          " Six custom levels cover every combination of error device / treated-as / negative value / unregistered; in a fifth of the histories one pool writer fails on every Write (routing must be unaffected); the package default logger (and children of it, uniquely named per case) takes part in the histories; one pool writer is handed over as the handle slog.NewLogWriter returns for it (and the level-settable one too, in every other case); children are also made through WithSkip / WithLevel / WithAttrs; a third of the writer operations are sandwiched between two probes of one severity on that logger; an eighth of the probes are blank Println() / Print(\"\") calls (the line break is the record and must be announced like any other)."),
     assumptions=["each record carries a unique probe token, counted in the captured streams",
                  "all loggers are at level Always so that every severity except Off is admitted (gating is C01)"],
     stages=[
@@ -150,7 +150,7 @@ PROPS["C12"] = dict(
     rule=("quick: rapid draws cells (3/4 of them with severity Panic or Fatal) for child processes and in-process scenarios with messages of any "
           "byte class. Non-trivial: the cell terminates, or exactly one conjunct of the termination condition is false; distinct = (entry point, "
           "severity, logger level, both flags, format, process mode)."
-          " The termination flags are set through SetFlags, Add/RemoveFlags, an open SaveFlagsAndMod scope or after its restore function; child scenarios include unregistered negative and huge severities; a third of the child processes log to slog.NewFileWriter(path) instead of the harness's own unbuffered file writer (half of the matrix cells); the flags may also be set by a closed SaveFlagsAndMod scope that added flags which were set already; calls carry one of four argument shapes (key/value, none, Attr values only, mixed); a quarter of the child processes get an additional -test.bench argument."),
+          " The termination flags are set through SetFlags, Add/RemoveFlags, an open SaveFlagsAndMod scope or after its restore function; child scenarios include unregistered negative and huge severities; a third of the child processes log to slog.NewFileWriter(path) instead of the harness's own unbuffered file writer (half of the matrix cells); the flags may also be set by a closed SaveFlagsAndMod scope that added flags which were set already; calls carry one of four argument shapes (key/value, none, Attr values only, mixed); a quarter of the child processes get an additional -test.bench argument; destinations include io.Discard (only the termination can be observed then)."),
     assumptions=["the child observes the record through an unbuffered os.File write before the process ends"],
     stages=[
         dict(name="child", run="^TestChildSampled$", quick=700, thorough=32000, shards=16, timeout_thorough=3000),
@@ -172,7 +172,7 @@ PROPS["C04"] = dict(
           "tree (keys: identifiers, arbitrary bytes, hostile constants; values: 22 scalar kinds, 17 typed slice kinds, 7 fallback kinds; groups at "
           "any position, possibly empty). Non-trivial: a hostile byte class in message/key/value (quote, backslash, CR/LF, control, ESC, invalid "
           "UTF-8, U+2028), or a group, or a non-string kind; distinct = the set of classes and kinds present."
-          " The logger is put into its format in four ways (Set...Mode, option of New, option of New on a child of a parent in another format, With...Mode method); flags are set through all public ways. A scratch record of a fixed menu (other format, multi-line, groups, nil last, background colour, own layout, child with context keys) may be printed right before the record (pooled printing contexts). Fallback kinds include []error, pointer to struct, map[string]any. The logger may have a (year-less, lossy) time layout of its own, which must govern the time field only; 1 of 80 messages is 70-300 KB long; strings of exactly 15..8193 bytes (around every power of two) are drawn; with caller info the source tree may be registered as a known path whose replacement contains quote, backslash, TAB, LF or non-ASCII; a garbage collection may precede the record. Half of the records that are not written through are issued by a drawn public entry point able to carry the severity (verbs, Context verbs, Logit, Log, package-level functions on the default logger)."),
+          " The logger is put into its format in four ways (Set...Mode, option of New, option of New on a child of a parent in another format, With...Mode method); flags are set through all public ways. A scratch record of a fixed menu (other format, multi-line, groups, nil last, background colour, own layout, child with context keys) may be printed right before the record (pooled printing contexts). Fallback kinds include []error, pointer to struct, map[string]any. The logger may have a (year-less, lossy) time layout of its own, which must govern the time field only; 1 of 80 messages is 70-300 KB long; strings of exactly 15..8193 bytes (around every power of two) are drawn; with caller info the source tree may be registered as a known path whose replacement contains quote, backslash, TAB, LF or non-ASCII; a garbage collection or a record whose value panics while it is printed (recovered) may precede the record; error values include wrap chains of 2-40 layers. Half of the records that are not written through are issued by a drawn public entry point able to carry the severity (verbs, Context verbs, Logit, Log, package-level functions on the default logger)."),
     assumptions=["encoding/json (with UseNumber, plus a UTF-8 validity check and a duplicate-name check) is the JSON judge"],
     stages=[
         dict(name="records", run="^TestJSONRecords$", quick=40000, thorough=1600000, shards=16, timeout_thorough=3000),
@@ -191,7 +191,7 @@ PROPS["C05"] = dict(
     note="Keys: non-empty, valid UTF-8, no space/'='/quote/control/'.'; reserved names excluded at every level; runs of blanks between pairs are accepted (statement: space-separated); nil may be printed as the bare placeholder <nil>.",
     rule=("as C04 with keys from the legal-logfmt class. Non-trivial: a group followed by at least one sibling in key order, or a hostile byte class "
           "in message/value, or a non-string kind, or a group; distinct = the set of classes and kinds present."
-          " The logger is put into its format in four ways (Set...Mode, option of New, option of New on a child of a parent in another format, With...Mode method); flags are set through all public ways. Scratch record, own time layout, huge messages and entry points as C04. With caller info the source tree may be registered as a known path whose replacement contains quote, backslash, TAB, LF or non-ASCII. The logger name may need quoting itself (quote + forged pair, LF, TAB, backslash, control byte, non-ASCII, blank, equals sign)."),
+          " The logger is put into its format in four ways (Set...Mode, option of New, option of New on a child of a parent in another format, With...Mode method); flags are set through all public ways. Scratch record, own time layout, huge messages and entry points as C04. With caller info the source tree may be registered as a known path whose replacement contains quote, backslash, TAB, LF or non-ASCII. Keys include some with a leading dot and near-reserved words (callers, caller_id, levels, message). The logger name may need quoting itself (quote + forged pair, LF, TAB, backslash, control byte, non-ASCII, blank, equals sign)."),
     assumptions=["strconv.Unquote is the inverse of the quoting the statement asks for", "production mode = harness binary run under a name not ending in .test"],
     stages=[
         dict(name="production", run="^TestLogfmtRecords$", mode="prod", quick=30000, thorough=800000, shards=16, timeout_thorough=3000),
@@ -272,7 +272,7 @@ PROPS["C11"] = dict(
     note="The shape classification is: starts with '{' and decodes as one JSON object = JSON; contains an SGR sequence = colored; otherwise must tokenise as logfmt starting with time=.",
     rule=("generated: 1-30 steps (set 50%, with/new 20%, probe 30%), boolean lists of length 0-3, then a probe of every logger. Non-trivial: some "
           "logger visited >= 2 states and >= 2 loggers exist; distinct = the history text. Enumerated: all index vectors; non-trivial: >= 2 states visited."
-          " Probes rotate over seven severities incl. a level registered without colours and unregistered ones, and over eight attribute lists (error, []error, group, time/duration, nil/[]byte/[]string, struct/map/float/complex, none). Long runs (255-131071) of one mode call between two probes; NO_COLOR=1 in the environment for a fifteenth of the cases."),
+          " Probes rotate over seven severities incl. a level registered without colours and unregistered ones, and over eight attribute lists (error, []error, group, time/duration, nil/[]byte/[]string, struct/map/float/complex, none). Probe messages rotate over single-line, multi-line and LF-terminated ones. Long runs (255-131071) of one mode call between two probes; NO_COLOR=1 in the environment for a fifteenth of the cases."),
     assumptions=[],
     stages=[
         dict(name="enumerated", run="^TestEnumeratedHistories$", quick=1, thorough=1, timeout_thorough=3000),
@@ -307,7 +307,7 @@ PROPS["C17"] = dict(
            "marshalling, short tags, parse results, gating, routing) unchanged, and after a success every known level still satisfies: "
            "String()==title, ParseLevel(String())==level, text and JSON round trips (direct and through encoding/json in a struct), custom tag "
            "or exactly n characters for ShortTag(1..5), gating as the treated-as level, routing to the error writers iff requested."),
-    note="Titles are 1-12 ASCII letters, some with ASCII punctuation incl. quote and backslash (ShortTag length is defined on bytes); treated-as targets Panic..Trace; the registry is restored between cases by the verif hook.",
+    note="Titles are 1-12 ASCII letters, some with ASCII punctuation incl. quote and backslash, some padded with blanks (ShortTag length is defined on bytes); treated-as targets Panic..Trace; the registry is restored between cases by the verif hook.",
     rule=("rapid draws 1-8 steps (3/4 registrations, 1/4 lookups of a known level). Non-trivial: the history contains a refused registration, a "
           "case-variant title or a successful registration; distinct = the history text. The slices MarshalText / MarshalJSON return are overwritten by the caller before the next call (they must be the caller's own)."),
     assumptions=["gating and routing oracles are those of C01 and C03"],
